@@ -876,6 +876,35 @@ func Generate(r *rand.Rand, profile string, concurrent bool, av Avoid) *Plan {
 		ops = append(ops, frag...)
 		p.Ops = append(ops, p.Ops[at:]...)
 	}
+	// Directed concurrent fragment: one channel short of the maximum, every channel
+	// saturated, nothing connecting; a call on a superseded picker and a call on
+	// the latest one both find the pool saturated, and the state reports of the
+	// channel the first of them adds are delivered right away. However the three
+	// interleave - the second call may be suspended between "pool is below its
+	// maximum" and the creation - the pool stays within maxSize.
+	if concurrent && (profile == "growth" || profile == "load") && !p.Cfg.RR && r.IntN(3) == 0 && len(p.Ops) > 4 {
+		mx := 2 + r.IntN(2)
+		p.Cfg.Min, p.Cfg.Max, p.Cfg.WM = uint32(mx-1), uint32(mx), 1
+		st := func() int { return r.IntN(5) }
+		frag := []Op{}
+		for c := 0; c < mx-1; c++ {
+			frag = append(frag, Op{K: OpConn, A: c, B: ConnProgress}, Op{K: OpConn, A: c, B: ConnProgress})
+		}
+		frag = append(frag, Op{K: OpSteps, A: 40})
+		for c := 0; c < mx-1; c++ {
+			frag = append(frag, Op{K: OpPick, B: MPlain, N: 20}) // held: every channel at the watermark
+		}
+		// a few more publications with the same READY set: superseded pickers that
+		// are as good as the latest one
+		frag = append(frag, Op{K: OpConn, A: 0, B: ConnFail, N: 20}, Op{K: OpConn, A: 0, B: ConnProgress, N: 20}, Op{K: OpConn, A: 0, B: ConnProgress, N: 20}, Op{K: OpSteps, A: 40})
+		frag = append(frag, Op{K: OpPick, B: MPlain, C: 2, N: st()}, Op{K: OpPick, B: MPlain, N: st()},
+			Op{K: OpConn, A: -1, B: ConnProgress, N: st()}, Op{K: OpConn, A: -1, B: ConnProgress, N: st()},
+			Op{K: OpPick, B: MPlain, C: 2, N: st()}, Op{K: OpSteps, A: 60})
+		at := 1
+		ops := append([]Op{}, p.Ops[:at]...)
+		ops = append(ops, frag...)
+		p.Ops = append(ops, p.Ops[at:]...)
+	}
 	// Directed concurrent fragment: a pool at its maximum size, every channel
 	// READY, then a volley of unkeyed calls started together with nothing else
 	// going on: whatever the interleaving, least-loaded placement is atomic, so
